@@ -9,7 +9,7 @@ python3 lib/gen_manifest.py >/dev/null
 for t in translators/*.py; do [ -f "$t" ] && python3 "$t"; done
 # Lean: everything registered in the lakefile + all property theorem modules
 ( cd lean && lake build DicomModel.AuditTool $(ls DicomModel/Props/*.lean 2>/dev/null | sed 's#/#.#g; s#\.lean$##') \
-    $(grep -o 'name = "drv_[a-z0-9_]*"' lakefile.toml | sed 's/name = //; s/"//g') )
+    $(ls Driver/C*.lean 2>/dev/null | sed 's#Driver/C#drv_c#; s#\.lean$##') )
 # Rust harness (path dependencies on /repo; builds the crates of /repo's working tree)
 ( cd harness && CARGO_TARGET_DIR="$T" cargo build --release --offline --bins )
 python3 lib/prebuild_tools.py
